@@ -1452,7 +1452,12 @@ fn collect_clause_handles(clause: &MutationClause, out: &mut BTreeSet<String>) {
             collect_facets_handles(&c.set_facets, out);
             collect_edges_handles(c.set_structural.as_ref(), out);
         }
-        MutationClause::EnsureProposition(_) => {}
+        // ENSURE has no WHERE of its own, so a `?variable` endpoint can only be a
+        // handle another clause of the plan creates.
+        MutationClause::EnsureProposition(c) => {
+            super::common::collect_term_variables(&c.subject, out);
+            super::common::collect_term_variables(&c.object, out);
+        }
         MutationClause::Update(c) => {
             element(&c.target);
             for action in &c.actions {
